@@ -1,4 +1,5 @@
 import Ledger.Proofs.CtrlDry
+import Ledger.Proofs.CtrlFault
 import Ledger.Proofs.CtrlExamples
 
 /-!
@@ -17,10 +18,10 @@ open Ledger.Ctrl Ledger.Core Ledger.Ctrl.Examples
 theorem failed_write_no_effect (strict : Bool) (s : State) (op : Op)
     (h : (step strict s op).2.isError = true) : observe (step strict s op).1 = observe s := by
   unfold step observe
-  rcases forgeLog_ending strict op none false s with ⟨hu, _, _⟩ | ⟨_, st, log, _, _, _, _, _, _, _, hc⟩
+  rcases forgeLog_ending strict op [] false s with ⟨hu, _, _⟩ | ⟨_, st, log, _, _, _, _, _, _, _, hc⟩
   · exact hu
   · exfalso
-    have : (forgeLog strict op none false s).resp.isError = false := by rw [hc.2]; rfl
+    have : (forgeLog strict op [] false s).resp.isError = false := by rw [hc.2]; rfl
     simp [step] at h
     rw [this] at h
     exact Bool.false_ne_true h
@@ -31,7 +32,7 @@ theorem dryrun_no_effect_same_answer (strict : Bool) (s : State) (op : Op) (h : 
     observe (step strict s op).1 = observe s ∧ (step strict s op).2 = (step strict s op.wet).2 := by
   refine ⟨?_, (forgeLog_resp_wet strict op s).symm⟩
   unfold step observe
-  rcases forgeLog_ending strict op none false s with ⟨hu, _, _⟩ | ⟨_, st, log, _, _, _, hd, _, _, _, _⟩
+  rcases forgeLog_ending strict op [] false s with ⟨hu, _, _⟩ | ⟨_, st, log, _, _, _, hd, _, _, _, _⟩
   · exact hu
   · rw [h] at hd; exact absurd hd (by decide)
 
@@ -39,34 +40,80 @@ theorem dryrun_no_effect_same_answer (strict : Bool) (s : State) (op : Op) (h : 
 theorem idempotent_hit_no_effect (strict : Bool) (s : State) (op : Op)
     (h : (step strict s op).2.hit = true) : observe (step strict s op).1 = observe s := by
   unfold step observe
-  rcases forgeLog_ending strict op none false s with ⟨hu, _, _⟩ | ⟨_, st, log, _, _, _, _, _, _, _, hc⟩
+  rcases forgeLog_ending strict op [] false s with ⟨hu, _, _⟩ | ⟨_, st, log, _, _, _, _, _, _, _, hc⟩
   · exact hu
   · exfalso
     simp [step] at h
     rw [hc.2] at h
     exact Bool.false_ne_true h
 
-/-- A store failure injected at ANY store call `k` (generic error, deadlock or
-    cancelled context; `BeginTX`, `Commit` and `Rollback` included), optionally
-    combined with a failing `COMMIT`: whenever the operation answers with an
-    error, every table is as it was. (A deadlock is retried: if the retry
-    succeeds the operation is an ordinary successful write.) -/
-theorem fault_anywhere_no_effect (strict : Bool) (s : State) (op : Op) (k : Nat) (kind : FaultKind)
-    (commitFault : Bool)
-    (h : (stepF strict s op (some ⟨k, kind⟩) commitFault).2.isError = true) :
-    observe (stepF strict s op (some ⟨k, kind⟩) commitFault).1 = observe s := by
+/-- Store failures injected at ANY store calls — any plan `f` of one-shot faults
+    (generic error, deadlock, cancelled context, idempotency-key conflict; `BeginTX`,
+    `Commit`, `Rollback` and the `recordedOutcome` lookup included; any number of
+    deadlocks, each retried by `forgeLogRetry`), optionally combined with a failing
+    `COMMIT`: whenever the operation answers with an error, every table is as it was. -/
+theorem fault_anywhere_no_effect (strict : Bool) (s : State) (op : Op) (f : Faults) (commitFault : Bool)
+    (h : (stepF strict s op f commitFault).2.isError = true) :
+    observe (stepF strict s op f commitFault).1 = observe s := by
   unfold stepF observe
-  rcases forgeLog_ending strict op (some ⟨k, kind⟩) commitFault s with ⟨hu, _, _⟩ | ⟨_, st, log, _, _, _, _, _, _, _, hc⟩
+  rcases forgeLog_ending strict op f commitFault s with ⟨hu, _, _⟩ | ⟨_, st, log, _, _, _, _, _, _, _, hc⟩
   · exact hu
   · exfalso
-    have : (forgeLog strict op (some ⟨k, kind⟩) commitFault s).resp.isError = false := by rw [hc.2]; rfl
+    have : (forgeLog strict op f commitFault s).resp.isError = false := by rw [hc.2]; rfl
     simp [stepF] at h
     rw [this] at h
     exact Bool.false_ne_true h
 
+/-- A dry run leaves every table as it was under any fault plan (any number of
+    deadlocks and retries included). -/
+theorem dryrun_no_effect_any_faults (strict : Bool) (s : State) (op : Op) (f : Faults) (cf : Bool)
+    (h : op.dry = true) : observe (stepF strict s op f cf).1 = observe s := by
+  unfold stepF observe
+  rcases forgeLog_ending strict op f cf s with ⟨hu, _, _⟩ | ⟨_, st, log, _, _, _, hd, _, _, _, _⟩
+  · exact hu
+  · rw [h] at hd; exact absurd hd (by decide)
+
+/-- A failing `COMMIT` — of the first attempt or of any retried one, for every
+    write kind, also when the failure ends in `recordedOutcome` — is never answered
+    with a committed write: tables as before, and the answer is an error unless the
+    operation never reaches `COMMIT` (idempotency hit, dry run). -/
+theorem commit_failure_no_effect (strict : Bool) (s : State) (op : Op) (f : Faults) :
+    observe (stepF strict s op f true).1 = observe s ∧
+    ((stepF strict s op f true).2.isError = true ∨ (stepF strict s op f true).2.hit = true ∨ op.dry = true) :=
+  forgeLog_commitFault strict op f s
+
+/-- **A non-retryable fault is never swallowed.** Under any plan of generic errors
+    and cancelled contexts the operation either answers an error, or state and
+    response are exactly those of the fault-free run (the fault did not fire, or hit a
+    `Rollback`, whose failure cannot change anything). -/
+theorem fault_surfaces (strict : Bool) (s : State) (op : Op) (f : Faults) (cf : Bool) (hnr : NonRetry f) :
+    (stepF strict s op f cf).2.isError = true ∨ stepF strict s op f cf = stepF strict s op [] cf := by
+  rcases fault_surfaces_or_harmless strict op f cf s hnr with h | ⟨h1, h2⟩
+  · exact Or.inl h
+  · right
+    show ((forgeLog strict op f cf s).state, (forgeLog strict op f cf s).resp) = _
+    rw [h1, h2]
+    rfl
+
+/-- The model of `forgeLogRetry` (loop until a non-deadlock outcome) is faithful for
+    every fault plan: its recursion bound is never hit. -/
+theorem retry_loop_terminates (strict : Bool) (s : State) (op : Op) (f : Faults) (cf : Bool) :
+    (stepF strict s op f cf).2.err ≠ some .outOfFuel :=
+  forgeLog_never_outOfFuel strict op f cf s
+
+/-- The `panic("incoherent error, received duplicate IK but log not found")` of the
+    retry loop is unreachable under the store contract: an attempt that fails with a
+    conflict reported by the store (not an injected one) finds the log on the root handle. -/
+theorem conflict_panic_unreachable (strict : Bool) (op : Op) (f : Faults) (cf : Bool) (s : State) (i tx : Nat)
+    (seq : Seqs) (n : Nat) (trace : List String) (seq' : Seqs) (n' : Nat) (trace' : List String)
+    (hnof : ∀ x ∈ f, x.kind ≠ .ikConflict)
+    (h : runTx strict op f cf s i tx seq n trace = .failed (.store .ikConflict) seq' n' trace') :
+    (fetchAfterConflict op f s seq' (n' + 1) trace').resp.err ≠ some .panic :=
+  Ledger.Ctrl.conflict_panic_unreachable strict op f cf s i tx seq n trace seq' n' trace' hnof h
+
 /-- The only way the tables change: the operation succeeded, is not a dry run and
     not an idempotency hit (with or without faults). -/
-theorem effect_only_on_committed_success (strict : Bool) (s : State) (op : Op) (f : Option Fault) (cf : Bool)
+theorem effect_only_on_committed_success (strict : Bool) (s : State) (op : Op) (f : Faults) (cf : Bool)
     (h : observe (stepF strict s op f cf).1 ≠ observe s) :
     (stepF strict s op f cf).2.isError = false ∧ (stepF strict s op f cf).2.hit = false ∧ op.dry = false := by
   unfold stepF observe at *
@@ -79,7 +126,7 @@ theorem effect_only_on_committed_success (strict : Bool) (s : State) (op : Op) (
       rw [hc.2]
 
 /-- A failing `COMMIT` is reported as an error and nothing is kept. -/
-theorem commit_failure_is_error (s : State) (st : RunSt) (h : String) (f : Option Fault) (log : Log) :
+theorem commit_failure_is_error (s : State) (st : RunSt) (h : String) (f : Faults) (log : Log) :
     (commitOrFail s st h f true log).resp.isError = true ∧ (commitOrFail s st h f true log).state.db = s.db := by
   unfold commitOrFail
   split
@@ -94,9 +141,16 @@ example : (step false s1 overdraw).1.db = s1.db := by decide
 example : (step false s1 (pay true)).2.isError = false ∧ (step false s1 (pay true)).1.db = s1.db := by decide
 example : (step false s1 (pay false)).1.db.txs.length = 2 := by decide
 -- a fault at the InsertLog call (call 5 of this op) of an otherwise successful write
-example : (stepF false s1 (pay false) (some ⟨5, .error⟩) false).2.err = some (.store .injected) := by decide +kernel
+example : (stepF false s1 (pay false) [⟨5, .error⟩] false).2.err = some (.store .injected) := by decide +kernel
 -- a deadlock there is retried and the write succeeds, with a gap in the transaction ids
-example : (stepF false s1 (pay false) (some ⟨5, .deadlock⟩) false).2.isError = false ∧
-          ((stepF false s1 (pay false) (some ⟨5, .deadlock⟩) false).1.db.txs.map (·.id)) = [1, 3] := by decide +kernel
+example : (stepF false s1 (pay false) [⟨5, .deadlock⟩] false).2.isError = false ∧
+          ((stepF false s1 (pay false) [⟨5, .deadlock⟩] false).1.db.txs.map (·.id)) = [1, 3] := by decide +kernel
+-- two deadlocks (first attempt, then the retried one): two retries, two gaps
+example : (stepF false s1 (pay false) [⟨5, .deadlock⟩, ⟨11, .deadlock⟩] false).2.isError = false ∧
+          ((stepF false s1 (pay false) [⟨5, .deadlock⟩, ⟨11, .deadlock⟩] false).1.db.txs.map (·.id)) = [1, 4] := by
+  decide +kernel
+-- a deadlock, then a failing COMMIT of the retried attempt
+example : (stepF false s1 (pay false) [⟨5, .deadlock⟩] true).2.err = some .commitFailed ∧
+          (stepF false s1 (pay false) [⟨5, .deadlock⟩] true).1.db = s1.db := by decide +kernel
 
 end Ledger.C07
